@@ -215,6 +215,9 @@ def run_check(mod, tier, seed, budget=None, selftest=False):
         try:
             out, err = conf.communicate(timeout=600)
             cres = json.loads(out.decode() or '{}')
+            if not cres.get('cases'):
+                cres = {'cases': 0, 'mismatches': [{'error': 'conformance process produced no result',
+                                                    'stderr': err.decode('utf8', 'replace')[-1500:]}]}
         except Exception as e:
             conf.kill()
             cres = {'cases': 0, 'mismatches': [{'error': repr(e)}]}
